@@ -192,6 +192,9 @@ def run(db, chk):
                "graphs with and without a masked node (shared with C01-E8), indexes no table outside its bounds: "
                "e.g. the `no basin` sentinel of a masked neighbour is never used as an index",
                pred=lambda o: o["ok"] or "out-of-bounds" in (o.get("detail") or ""), min_instances=100, tier="quick")
+    chk.absorb(db, "C13", {"C13-L4"}, "C08-B10", "no setter overload of the SPL eroder leaves a stride / size "
+               "descriptor of the coefficient array stale (shared with C13-L4): erode() would index the new array "
+               "with the old layout", min_instances=2)
     # ---- B3
     resize_safe = {}
     for fn in db.fns(POOL + "::resize"):
